@@ -107,7 +107,7 @@ pub fn seq_cfg(focus: &'static str, seed: u64, index: u64, clean_only: bool) -> 
             "C07" => allow.put_on_expired = true,
             "C08" => { allow.upsert_on_expired = true; allow.upsert_on_soft_deleted = true; allow.remove_ttl_small_weight = rng.chance(1, 3); }
             "C09" => allow.upsert_on_expired = true,
-            "C01" => allow.overweight_update = true,
+            "C01" => { allow.overweight_update = true; allow.remove_ttl_small_weight = rng.chance(1, 3); }
             "C17" => { allow = Allow::all(); }
             // a put over an expired, unswept entry: refused today (a recorded C07 finding, which ends the history); if it were admitted the
             // counters and the accounting would have to stay exact
@@ -115,7 +115,8 @@ pub fn seq_cfg(focus: &'static str, seed: u64, index: u64, clean_only: bool) -> 
             _ => {}
         }
     }
-    let counters_choices: &[u64] = if allow.counters_one { &[1, 2, 3, 7, 10, 100, 1 << 20] } else { &[2, 3, 7, 10, 100, 1000] };
+    // (a sketch with a single counter per row is legal: its rows used to be empty, repaired by e1fc0f4)
+    let counters_choices: &[u64] = if allow.counters_one { &[1, 2, 3, 7, 10, 100, 1 << 20] } else { &[1, 2, 3, 7, 10, 100, 1000] };
     let sut = SutCfg {
         counters: *rng.pick(counters_choices),
         capacity: *rng.pick(&[1usize, 4, 16, 64]),
